@@ -212,7 +212,7 @@ contract(O + "MemoryLogger.write", props=["C16", "C14", "C13"], types={"dictiona
                   ("message-recorded-with-its-own-serializer", "seq(self.messages) == old(seq(self.messages)) + [dictionary] and "
                    "seq(self.serializers) == old(seq(self.serializers)) + [serializer]", ["C16"]),
                   ("traceback-list-consistent", "seq(self.tracebackMessages) == ite(serializer is lookup_global('eliot/_traceback.py', 'TRACEBACK_MESSAGE')._serializer, "
-                   "old(seq(self.tracebackMessages)) + [dictionary], old(seq(self.tracebackMessages)))", ["C16"]),
+                   "old(seq(self.tracebackMessages)) + [dictionary], old(seq(self.tracebackMessages)))", ["C16", "C14"]),
                   ("caller-dictionary-not-modified", "dict_of(dictionary) == old(dict_of(dictionary))", ["C13", "C14"]),
                   ("monitor-invariant", MONITOR_INV, ["C16"])],
          raises=[{"cls": "BaseException",
